@@ -748,16 +748,26 @@ func hitTest(s Surface, hits []hitResult, col uint16, row uint16) []hitResult {
 		w:   s.Widget,
 	}
 	hits = append(hits, r)
-	for _, ss := range s.Children {
+
+	// Of the children containing the point only the one painted last (the
+	// highest z-index, the later one among equals) is under the pointer.
+	// The ones it covers are not part of the chain
+	top := -1
+	for i, ss := range s.Children {
 		if !ss.containsPoint(int(col), int(row)) {
 			continue
 		}
-		local_col := col - uint16(ss.Origin.Col)
-		local_row := row - uint16(ss.Origin.Row)
-		hits = hitTest(ss.Surface, hits, local_col, local_row)
+		if top < 0 || ss.ZIndex >= s.Children[top].ZIndex {
+			top = i
+		}
 	}
-
-	return hits
+	if top < 0 {
+		return hits
+	}
+	ss := s.Children[top]
+	local_col := col - uint16(ss.Origin.Col)
+	local_row := row - uint16(ss.Origin.Row)
+	return hitTest(ss.Surface, hits, local_col, local_row)
 }
 
 func debugPrintWidget(s Surface, indent int, focused Widget) {
